@@ -48,18 +48,23 @@ theorem step_mono {cfg : Cfg} {s s' : State} (a : Action) (h : step cfg s a = so
     split at h <;> try contradiction
     split at h <;> try contradiction
     simp only [Option.some.injEq] at h; subst h; exact ConnsMono.refl _
+  | pGive =>
+    simp only [step] at h
+    split at h <;> try contradiction
+    rename_i n q c i hp hh
+    split at h <;> try contradiction
+    cases hu : updConn s c (cHand i) with
+    | none => rw [hu] at h; contradiction
+    | some s1 =>
+      rw [hu] at h
+      simp only [Option.map_some, Option.some.injEq] at h; subst h
+      have := updConn_mono (good_cHand i) hu
+      exact this
   | start c i =>
     simp only [step] at h
     split at h
+    · exact updConn_mono (good_cStartP i) h
     · exact updConn_mono (good_cStart i) h
-    · split at h <;> try contradiction
-      cases hu : updConn s c (cStart i) with
-      | none => rw [hu] at h; contradiction
-      | some s1 =>
-        rw [hu] at h
-        simp only [Option.map_some, Option.some.injEq] at h; subst h
-        have := updConn_mono (good_cStart i) hu
-        exact this
   | fin c i => exact updConn_mono (good_cFin i) h
   | write c i => exact updConn_mono (good_cWrite i) h
   | dec c i => exact updConn_mono (good_cDec i) h
@@ -191,5 +196,238 @@ theorem registeredIds_notifyAll (s : State) : registeredIds (notifyAll s) = regi
   cases s.conns[c]? with
   | none => rfl
   | some k => simp [(cNotify_keeps k).2.2]
+
+/-! ### without a pool no request is ever in the state `handed` -/
+
+def NoHand (k : Conn) : Prop := ∀ q ∈ k.reqs, q.st ≠ .handed
+def NoHandF (f : Conn → Option Conn) : Prop := ∀ k k', f k = some k' → NoHand k → NoHand k'
+
+theorem nhf_of_reqs_eq {f : Conn → Option Conn} (h : ∀ k k', f k = some k' → k'.reqs = k.reqs) : NoHandF f := by
+  intro k k' hf hn q hq
+  rw [h k k' hf] at hq
+  exact hn q hq
+
+theorem nhf_cSetSt (i : Nat) (frm : HSt) (to : Conn → HSt) (hto : ∀ k, to k ≠ .handed) :
+    NoHandF (fun k => cSetSt i frm (to k) k) := by
+  intro k k' h hn q hq
+  simp only [cSetSt] at h
+  split at h <;> try contradiction
+  split at h <;> try contradiction
+  simp only [Option.some.injEq] at h; subst h
+  rcases List.mem_or_eq_of_mem_set hq with hq | hq
+  · exact hn q hq
+  · subst hq; exact hto k
+
+theorem nhf_cSend (r : Rid) : NoHandF (cSend r) := nhf_of_reqs_eq (by
+  intro k k' h; unfold cSend at h; split at h <;> try contradiction
+  simp only [Option.some.injEq] at h; subst h; rfl)
+theorem nhf_cAccept : NoHandF cAccept := nhf_of_reqs_eq (by
+  intro k k' h; unfold cAccept at h; split at h <;> try contradiction
+  simp only [Option.some.injEq] at h; subst h; rfl)
+theorem nhf_cRegister : NoHandF cRegister := nhf_of_reqs_eq (by
+  intro k k' h; unfold cRegister at h; split at h <;> try contradiction
+  simp only [Option.some.injEq] at h; subst h; rfl)
+theorem nhf_cStamp : NoHandF cStamp := nhf_of_reqs_eq (by
+  intro k k' h; unfold cStamp at h; split at h <;> try contradiction
+  simp only [Option.some.injEq] at h; subst h; rfl)
+theorem nhf_cRead (n : Nat) : NoHandF (cRead n) := nhf_of_reqs_eq (by
+  intro k k' h; unfold cRead at h; split at h <;> try contradiction
+  split at h <;> try contradiction
+  simp only [Option.some.injEq] at h; subst h; rfl)
+theorem nhf_cReadErr (b f : Bool) : NoHandF (cReadErr b f) := nhf_of_reqs_eq (by
+  intro k k' h; unfold cReadErr at h; split at h <;> try contradiction
+  split at h <;> (simp only [Option.some.injEq] at h; subst h; rfl))
+theorem nhf_cAge : NoHandF cAge := nhf_of_reqs_eq (by
+  intro k k' h; unfold cAge at h; simp only [Option.some.injEq] at h; subst h; rfl)
+theorem nhf_cDrainClose : NoHandF cDrainClose := nhf_of_reqs_eq (by
+  intro k k' h; unfold cDrainClose at h; split at h <;> try contradiction
+  split at h <;> try contradiction
+  simp only [Option.some.injEq] at h; subst h; rfl)
+theorem nhf_cRecvRsp (i : Nat) : NoHandF (cRecvRsp i) := nhf_of_reqs_eq (by
+  intro k k' h; unfold cRecvRsp at h; split at h <;> try contradiction
+  split at h <;> try contradiction
+  simp only [Option.some.injEq] at h; subst h; rfl)
+theorem nhf_cRecvMsg : NoHandF cRecvMsg := nhf_of_reqs_eq (by
+  intro k k' h; unfold cRecvMsg at h; split at h <;> try contradiction
+  simp only [Option.some.injEq] at h; subst h; rfl)
+theorem nhf_cRecvEof : NoHandF cRecvEof := nhf_of_reqs_eq (by
+  intro k k' h; unfold cRecvEof at h; split at h <;> try contradiction
+  simp only [Option.some.injEq] at h; subst h; rfl)
+theorem nhf_cEnqueued' : NoHandF cEnqueued' := nhf_of_reqs_eq (by
+  intro k k' h; unfold cEnqueued' cEnqueued at h; split at h <;> simp at h
+  subst h; rfl)
+theorem nhf_cDispatch (p : Bool) : NoHandF (cDispatch p) := by
+  intro k k' h hn q hq
+  unfold cDispatch at h; split at h <;> try contradiction
+  simp only [Option.some.injEq] at h; subst h
+  simp at hq
+  rcases hq with hq | hq
+  · exact hn q hq
+  · subst hq; simp
+theorem nhf_cStart (i : Nat) : NoHandF (cStart i) := nhf_cSetSt i .queued (fun _ => .running) (by simp)
+theorem nhf_cStartP (i : Nat) : NoHandF (cStartP i) := nhf_cSetSt i .handed (fun _ => .running) (by simp)
+theorem nhf_cFin (i : Nat) : NoHandF (cFin i) := nhf_cSetSt i .running (fun _ => .finished) (by simp)
+theorem nhf_cWrite (i : Nat) : NoHandF (cWrite i) :=
+  nhf_cSetSt i .finished (fun k => .wrote (!k.srvClosed)) (by simp)
+theorem nhf_cDec (i : Nat) : NoHandF (cDec i) := by
+  intro k k' h hn q hq
+  unfold cDec at h
+  split at h <;> try contradiction
+  split at h <;> try contradiction
+  simp only [Option.some.injEq] at h; subst h
+  rcases List.mem_or_eq_of_mem_set hq with hq | hq
+  · exact hn q hq
+  · subst hq; simp
+
+def NoHandAll (s : State) : Prop := ∀ (c : Nat) (k : Conn), s.conns[c]? = some k → NoHand k
+
+theorem nohand_updConn {s s' : State} {c : Cid} {f : Conn → Option Conn} (hf : NoHandF f)
+    (hn : NoHandAll s) (h : updConn s c f = some s') : NoHandAll s' := by
+  obtain ⟨k, k', hk, hfk, rfl⟩ := updConn_some h
+  intro c' x hx
+  rcases getElem?_set_cases hk hx with ⟨_, rfl⟩ | ⟨_, hx'⟩
+  · exact hf k x hfk (hn c k hk)
+  · exact hn c' x hx'
+
+theorem nohand_set_close {s : State} {c : Cid} {k : Conn} (hn : NoHandAll s) (hk : s.conns[c]? = some k) :
+    ∀ (c' : Nat) (x : Conn), (s.conns.set c (cCloseByIdles k))[c']? = some x → NoHand x := by
+  intro c' x hx
+  rcases getElem?_set_cases hk hx with ⟨_, rfl⟩ | ⟨_, hx'⟩
+  · exact hn c k hk
+  · exact hn c' x hx'
+
+theorem nohand_notifyAll {s : State} (hn : NoHandAll s) : NoHandAll (notifyAll s) := by
+  intro c x hx
+  obtain ⟨k, hk, rfl⟩ := map_notify_get hx
+  intro q hq
+  rw [(cNotify_keeps k).1] at hq
+  exact hn c k hk q hq
+
+/-- without a pool, no action hands a request to a worker -/
+theorem nohand_step {cfg : Cfg} (hpool : cfg.pool = none) {s s' : State} (a : Action)
+    (hn : NoHandAll s) (h : step cfg s a = some s') : NoHandAll s' := by
+  cases a with
+  | connect =>
+    simp only [step, Option.some.injEq] at h; subst h
+    intro c x hx
+    by_cases hlt : c < s.conns.length
+    · rw [List.getElem?_append_left hlt] at hx; exact hn c x hx
+    · rw [List.getElem?_append_right (Nat.le_of_not_lt hlt)] at hx
+      cases hcl : c - s.conns.length with
+      | zero => rw [hcl] at hx; simp at hx; subst hx; intro q hq; simp [Conn.new] at hq
+      | succ n => rw [hcl] at hx; simp at hx
+  | send c r => exact nohand_updConn (nhf_cSend r) hn h
+  | accept c =>
+    simp only [step] at h
+    split at h
+    · exact nohand_updConn nhf_cAccept hn h
+    · contradiction
+  | register c => exact nohand_updConn nhf_cRegister hn h
+  | stamp c => exact nohand_updConn nhf_cStamp hn h
+  | read c n => exact nohand_updConn (nhf_cRead n) hn h
+  | readErr c f => exact nohand_updConn (nhf_cReadErr _ f) hn h
+  | age c => exact nohand_updConn nhf_cAge hn h
+  | dispatch c => exact nohand_updConn (nhf_cDispatch _) hn h
+  | enqueue c => simp [step, hpool] at h
+  | pTake =>
+    simp only [step] at h
+    split at h <;> try contradiction
+    split at h <;> try contradiction
+    simp only [Option.some.injEq] at h; subst h; exact hn
+  | pGive => simp [step, hpool] at h
+  | start c i =>
+    simp only [step] at h
+    split at h
+    · exact nohand_updConn (nhf_cStartP i) hn h
+    · exact nohand_updConn (nhf_cStart i) hn h
+  | fin c i => exact nohand_updConn (nhf_cFin i) hn h
+  | write c i => exact nohand_updConn (nhf_cWrite i) hn h
+  | dec c i => exact nohand_updConn (nhf_cDec i) hn h
+  | drainClose c => exact nohand_updConn nhf_cDrainClose hn h
+  | shutdownCall =>
+    simp only [step] at h
+    split at h <;> try contradiction
+    simp only [Option.some.injEq] at h; subst h; exact hn
+  | setClosed =>
+    simp only [step] at h
+    split at h <;> try contradiction
+    simp only [Option.some.injEq] at h; subst h; exact hn
+  | acceptExit =>
+    simp only [step] at h
+    split at h <;> try contradiction
+    simp only [Option.some.injEq] at h; subst h; exact hn
+  | relCall =>
+    simp only [step] at h
+    split at h <;> try contradiction
+    simp only [Option.some.injEq] at h; subst h; exact hn
+  | pStop =>
+    simp only [step] at h
+    split at h <;> try contradiction
+    simp only [Option.some.injEq] at h; subst h; exact hn
+  | relRet =>
+    simp only [step] at h
+    split at h <;> try contradiction
+    simp only [Option.some.injEq] at h; subst h; exact hn
+  | closeMsg =>
+    simp only [step] at h
+    split at h <;> try contradiction
+    split at h <;> try contradiction
+    simp only [Option.some.injEq] at h; subst h; exact nohand_notifyAll hn
+  | onShutdownRet =>
+    simp only [step] at h
+    split at h <;> try contradiction
+    simp only [Option.some.injEq] at h; subst h; exact hn
+  | ciBegin =>
+    simp only [step] at h
+    split at h <;> try contradiction
+    simp only [Option.some.injEq] at h; subst h
+    by_cases hl : s.listenClosed = 1
+    · simp only [hl, if_true]; exact nohand_notifyAll hn
+    · simp only [hl, if_false]; exact hn
+  | ciVisit c =>
+    simp only [step] at h
+    split at h <;> try contradiction
+    split at h <;> try contradiction
+    split at h <;> try contradiction
+    rename_i k hk
+    split at h
+    · simp only [Option.some.injEq] at h; subst h; exact hn
+    · split at h
+      · simp only [Option.some.injEq] at h; subst h; exact hn
+      · split at h
+        · simp only [Option.some.injEq] at h; subst h; exact hn
+        · simp only [Option.some.injEq] at h; subst h; exact nohand_set_close hn hk
+        · simp only [Option.some.injEq] at h; subst h; exact hn
+  | ciClose =>
+    simp only [step] at h
+    split at h <;> try contradiction
+    split at h <;> try contradiction
+    split at h <;> try contradiction
+    rename_i k hk
+    simp only [Option.some.injEq] at h; subst h
+    exact nohand_set_close hn hk
+  | ciEnd =>
+    simp only [step] at h
+    split at h <;> try contradiction
+    split at h <;> try contradiction
+    simp only [Option.some.injEq] at h; subst h; exact hn
+  | ctxExpire =>
+    simp only [step] at h
+    split at h <;> try contradiction
+    simp only [Option.some.injEq] at h; subst h; exact hn
+  | recvRsp c i => exact nohand_updConn (nhf_cRecvRsp i) hn h
+  | recvMsg c => exact nohand_updConn nhf_cRecvMsg hn h
+  | recvEof c => exact nohand_updConn nhf_cRecvEof hn h
+
+theorem nohand_reachable {cfg : Cfg} (hpool : cfg.pool = none) {s : State} (hr : Reachable cfg s) :
+    NoHandAll s := by
+  induction hr with
+  | init => intro c k hk; simp [init] at hk
+  | step a _ hs ih => exact nohand_step hpool a ih hs
+
+theorem nopool_never_handed (cfg : Cfg) (hpool : cfg.pool = none) {s : State} (hr : Reachable cfg s)
+    (c : Nat) (k : Conn) (hk : s.conns[c]? = some k) (q : Req) (hq : q ∈ k.reqs) (hst : q.st = .handed) :
+    False :=
+  nohand_reachable hpool hr c k hk q hq hst
 
 end Tars.ServerConn
